@@ -141,7 +141,7 @@ def make_case(rng, n_ids=None, id_type=None, pop=None, interleave=None, mapped=N
             n_m = int(rng.integers(1 if (o == 0 or i_ == 0 or skip_first) else 0, 5))
             if o == 0 and skip_first:
                 n_m = 0
-            ts = np.sort(rng.choice(np.arange(1, 30), size=n_m, replace=False)) * 0.5
+            ts = np.sort(rng.choice(np.arange(1, 30), size=n_m, replace=False)) / 3.0          # times with non-terminating binary (and decimal) fractions
             for t in ts:
                 ind['meas'][o].append((float(t), 3.0 + 0.0137 * next(tag) + 0.5 * t))
         if int(rng.integers(0, 3)) == 0:
@@ -155,6 +155,15 @@ def make_case(rng, n_ids=None, id_type=None, pop=None, interleave=None, mapped=N
         n_d = int(rng.integers(0, 4))
         for st in np.sort(rng.choice(np.arange(0, 20), size=n_d, replace=False)) * 0.5:
             ind['doses'].append((float(st), float(rng.integers(1, 9)), (None if rng.integers(0, 2) else float(rng.integers(1, 5)) * 0.25)))
+        if ind['doses'] and int(rng.integers(0, 3)) == 0:
+            # a measurement recorded on the same row as a dose (e.g. a trough sample taken at the dosing visit): one row, both facts
+            st = ind['doses'][0][0]
+            o = 0 if (mapped == 'o0 only' or int(rng.integers(0, 2)) == 0) else 1
+            if st > 0 and not any(t_ == st for (t_, _) in ind['meas'][o]):
+                ind['meas'][o].append((float(st), 3.0 + 0.0137 * next(tag) + 0.5 * st))
+                ind['meas'][o].sort(key=lambda r_: r_[0])
+            if any(t_ == st for (t_, _) in ind['meas'][o]):
+                ind['combined'] = (o, float(st))
         ind['cov'] = {'Age': 20.0 + 0.37 * next(tag), 'Weight': 60.0 + 0.11 * next(tag)}
         gt['ind'][i_] = ind
     return gt
@@ -173,10 +182,19 @@ def frame_of(gt, rng):
     for i_, id_ in enumerate(gt['ids']):
         ind = gt['ind'][i_]
         rows = []
+        comb = ind.get('combined') if ind['doses'] else None
+        comb_done = False
         for o in (0, 1):
             for (t, y) in ind['meas'][o]:
+                if comb is not None and not comb_done and (o, t) == comb:
+                    st, a, d = ind['doses'][0]
+                    rows.append((t, 1, {K['id']: id_, K['time']: t, K['obs']: names[o], K['val']: y, K['dose']: a, K['dur']: (np.nan if d is None else d)}))
+                    comb_done = True
+                    continue
                 rows.append((t, 1, {K['id']: id_, K['time']: t, K['obs']: names[o], K['val']: y, K['dose']: np.nan, K['dur']: np.nan}))
-        for (st, a, d) in ind['doses']:
+        for k_d, (st, a, d) in enumerate(ind['doses']):
+            if comb_done and k_d == 0:
+                continue
             rows.append((st, 0, {K['id']: id_, K['time']: st, K['obs']: np.nan, K['val']: np.nan, K['dose']: a, K['dur']: (np.nan if d is None else d)}))
         if gt['missing']:
             # missing value at a real time, value at a missing time, dose row without a time: all must be ignored
